@@ -70,6 +70,7 @@ type poolSpec struct {
 	ReflectPort     int    // reflect_port (0: reflection on the target itself)
 	Timeout         string // gun timeout ("" = 120s)
 	ContinueOnError bool   // grpc/json continueonerror
+	MaxAmmoSize     int    // grpc/json maxammosize (0: the provider's default)
 	TLS             bool              // gun `tls: true`
 	ReflectMetadata map[string]string // gun `reflect_metadata`
 	Authority       string            // gun `dial_options.authority`
@@ -140,6 +141,8 @@ func (ps poolSpec) configMap() map[string]interface{} {
 	}
 	if ps.Preload {
 		ammo["preload"] = true
+	if ps.MaxAmmoSize > 0 {
+		ammo["maxammosize"] = ps.MaxAmmoSize
 	}
 	times := ps.Shots
 	if ps.Shots == 0 {
